@@ -8,7 +8,7 @@ namespace Proofs.Format
 open ZodbModel ZodbModel.Format
 
 theorem parseTxn_ok_len {rest : Bytes} {pos : Nat} {t : FTxn} {precs : List (Nat × FRec)} {len : Nat}
-    (h : parseTxn rest pos = .ok t precs len) : 8 ≤ len ∧ len ≤ rest.length := by
+    (h : parseTxn rest pos = .ok t precs len) : 31 ≤ len ∧ len ≤ rest.length := by
   unfold parseTxn at h
   simp only [] at h
   repeat' (split at h <;> try (simp at h))
@@ -17,7 +17,7 @@ theorem parseTxn_ok_len {rest : Bytes} {pos : Nat} {t : FTxn} {precs : List (Nat
   constructor <;> omega
 
 theorem parseTxn_skip_len {rest : Bytes} {pos tid len : Nat}
-    (h : parseTxn rest pos = .skip tid len) : 8 ≤ len ∧ len ≤ rest.length := by
+    (h : parseTxn rest pos = .skip tid len) : 31 ≤ len ∧ len ≤ rest.length := by
   unfold parseTxn at h
   simp only [] at h
   repeat' (split at h <;> try (simp at h))
